@@ -37,7 +37,9 @@ RULE = (
     "pending requests in a chosen order: all orders are enumerated depth-first for sets whose "
     "schedule tree has <= MAX_ENUM leaves (quick 400, thorough 3000), otherwise sampled "
     "uniformly at each decision. Oracle: each operation's result == its solo result on an "
-    "identical agent; every request carries its own client's user; agent verdict counters "
+    "identical agent; two clock modes: every read advances (distinct request ids) and frozen "
+    "(all operations start within the same second and share one request id, as in real "
+    "use); every request carries its own client's user; agent verdict counters "
     "clean (repeated discovery allowed); no 'never awaited' / 'exception never retrieved' "
     "events. Distinct = distinct (operation set, answer order) pairs observed."
 )
@@ -96,6 +98,9 @@ class Parker:
         fut = asyncio.get_running_loop().create_future()
         self.pending.append((OPVAR.get(), bytes(packet), fut))
         return await fut
+
+
+CLOCK_MODE = ["stepping"]
 
 
 async def run_schedule(mode, ops, prefix, rng, events):
@@ -179,7 +184,11 @@ async def run_schedule(mode, ops, prefix, rng, events):
 def execute(mode, ops, prefix, rng):
     events = []
     rig.env.CLOCK.freeze(1_700_000_000.0)
-    rig.env.CLOCK.stepping(lambda: 1.0)
+    if CLOCK_MODE[0] == "stepping":
+        # every read advances: concurrent operations carry DIFFERENT request ids
+        rig.env.CLOCK.stepping(lambda: 1.0)
+    # "frozen": all operations start within the same second and carry the SAME
+    # request id (ids are int(time())), which is what happens in real use
     loop = asyncio.new_event_loop()
     loop.set_exception_handler(lambda l, ctx: events.append("loop: %s" % ctx.get("message")))
     with warnings.catch_warnings(record=True) as caught:
@@ -239,8 +248,9 @@ def judge(R, case, mode, ops, results, order, agent, clients, events):
     return True
 
 
-def explore(R, mode, ops, max_enum, sample_n, seed):
-    case = {"mode": mode, "ops": list(ops)}
+def explore(R, mode, ops, max_enum, sample_n, seed, clock="stepping"):
+    CLOCK_MODE[0] = clock
+    case = {"mode": mode, "ops": list(ops), "clock": clock}
     stack = [[]]
     runs = 0
     seen = set()
@@ -256,7 +266,7 @@ def explore(R, mode, ops, max_enum, sample_n, seed):
         results, trace, order, agent, clients, events = execute(mode, ops, prefix, None)
         runs += 1
         seen.add(tuple(order))
-        R.case(("c14", mode, tuple(ops), tuple(order)), len(order) >= 2, sample={**case, "order": order, "decisions": trace} if runs == 1 and R.evaluations % 7 == 0 else None)
+        R.case(("c14", mode, clock, tuple(ops), tuple(order)), len(order) >= 2, sample={**case, "order": order, "decisions": trace} if runs == 1 and R.evaluations % 7 == 0 else None)
         if not judge(R, dict(case, prefix=prefix), mode, ops, results, order, agent, clients, events):
             return
         for i in range(len(prefix), len(trace)):
@@ -273,7 +283,7 @@ def explore(R, mode, ops, max_enum, sample_n, seed):
             if not R.time_left():
                 break
             results, trace, order, agent, clients, events = execute(mode, ops, [], rng)
-            R.case(("c14", mode, tuple(ops), tuple(order)), len(order) >= 2)
+            R.case(("c14", mode, clock, tuple(ops), tuple(order)), len(order) >= 2)
             if not judge(R, dict(case, sampled_seed=seed), mode, ops, results, order, agent, clients, events):
                 return
 
@@ -300,7 +310,10 @@ def run(R):
         k += 1
         if not R.mine(k):
             continue
-        explore(R, mode, ops, MAX_ENUM[R.tier], 30, k)
+        explore(R, mode, ops, MAX_ENUM[R.tier], 30, k, clock="stepping")
+        k += 1
+        if R.mine(k):
+            explore(R, mode, ops, MAX_ENUM[R.tier], 30, k, clock="frozen")
     for i in range(n):
         k += 1
         if not R.mine(k):
@@ -312,12 +325,13 @@ def run(R):
         nops = rng.choice((2, 2, 3, 3, 4, 5, 6))
         ops = tuple(rng.choice(OPKINDS) for _ in range(nops))
         v3 = mode.startswith("v3")
-        explore(R, mode, ops, MAX_ENUM[R.tier] // (8 if v3 else 1), 12 if v3 else 60, i)
+        explore(R, mode, ops, MAX_ENUM[R.tier] // (8 if v3 else 1), 12 if v3 else 60, i, clock=("stepping", "frozen")[(i // len(modes)) % 2])
 
 
 def replay(R, v):
     c = v["case"]
     ops = tuple(c["ops"])
+    CLOCK_MODE[0] = c.get("clock", "stepping")
     if "prefix" in c:
         results, trace, order, agent, clients, events = execute(c["mode"], ops, c["prefix"], None)
         R.evaluations += 1
